@@ -234,10 +234,7 @@ def iterServerPacket (output : Option Bytes) : List Packet :=
 /-- concatenation of the framed packets (`b"".join(p.dumps() for p in ps)`) -/
 def dumpsAll : List Packet → Py Bytes
   | [] => .ok []
-  | p :: ps =>
-    match dumps p with
-    | .error e => .error e
-    | .ok b => (dumpsAll ps).map (b ++ ·)
+  | p :: ps => (dumps p).bind fun b => (dumpsAll ps).map (b ++ ·)
 
 /-! ### What is assumed about the primitives -/
 
